@@ -20,7 +20,7 @@ RULE = ("contexts x key paths (present/absent/through a scalar) x 3 notations x 
         "UpdateContext option matrix; oracle = reference lookup/set/delete on key lists, "
         "exception contract, typed-equality canonicity of to_string.")
 ASSUMPTIONS = [
-    "keys are from {a,b,c,x,y} (no digits, no dict attribute names) so jinja2 attribute lookup and dotted keys agree",
+    "keys are from {a,b,c,x,y} (no digits, no dict attribute names) so jinja2 attribute lookup and dotted keys agree; the addressing check also puts a top-level key spelled like the whole dotted path into some contexts",
     "dotted strings with empty components, contains(d, ''), not-well-nested braces, empty replacement fields and format specs are left out (undefined by the code's own docs); only the exception contract is checked for strings with empty components",
 ]
 
@@ -28,7 +28,9 @@ KEYS = ["a", "b", "c", "x", "y"]
 MISSING = object()
 
 ctx_leaf = st.one_of(st.sampled_from([0, 1, 2, False, True, None, "", "x", "y", 3.5]),
-                     st.builds(list), st.lists(st.integers(0, 2), min_size=1, max_size=2))
+                     st.sampled_from([0, 1, False, None, "x", "xy", "a b", "ab"]),
+                     st.builds(list), st.lists(st.integers(0, 2), min_size=1, max_size=2),
+                     st.lists(st.sampled_from(["x", "y", "a"]), min_size=1, max_size=2))
 
 
 def ctx_strat(depth=3):
@@ -49,7 +51,7 @@ def ref_get(c, path):
 
 def biased_path(draw, ctx, min_size=0):
     """a path that is often present / absent at the last step / through a scalar"""
-    mode = draw(st.integers(0, 4))
+    mode = draw(st.integers(0, 5))
     allp = [list(p) for p in gen.paths_of(ctx)]
     if mode == 0 or not allp:
         return draw(st.lists(st.sampled_from(KEYS), min_size=max(min_size, draw(st.sampled_from([0, 1, 1, 2]))), max_size=4))
@@ -59,8 +61,17 @@ def biased_path(draw, ctx, min_size=0):
         # (truthy or falsy: 0, False, None)
         found, v = gen.ref_get(ctx, p)
         sv = str(v)
-        if found and not isinstance(v, (dict, list)) and sv and "." not in sv:
+        if found and not isinstance(v, (dict, list)) and sv and "." not in sv and " " not in sv:
             return p + [sv]
+        return p
+    if mode == 5:
+        # a last component that is only a part of what is found there: a substring of a string, an element of a list
+        found, v = gen.ref_get(ctx, p)
+        if found and isinstance(v, str) and len(v) >= 2:
+            part = draw(st.sampled_from(sorted(set(v.replace(" ", "")))))
+            return p + [part]
+        if found and isinstance(v, list) and v and all(isinstance(x, str) and x for x in v):
+            return p + [draw(st.sampled_from(v))]
         return p
     if mode == 1:
         return p
@@ -97,6 +108,11 @@ def notation(path, how):
 def addressing_case(draw):
     ctx = draw(ctx_strat())
     path = biased_path(draw, ctx)
+    if draw(st.integers(0, 5)) == 0 and len(path) != 1:
+        # a top-level key whose text is the whole dotted path (for the empty path: the empty key): a dotted
+        # string still addresses the nested item, never this key
+        ctx = dict(ctx)
+        ctx[".".join(path)] = "flat"
     return {"ctx": ctx, "path": path,
             "notation": draw(st.sampled_from(["str", "list", "dict", "dict2"])),
             "default": draw(st.sampled_from(["<none>", None, 0, "D"])),
